@@ -89,7 +89,7 @@ func (s *stage) flush(r *lib.Report) {
 
 // replayCase is the `replay` value of every violation.
 type replayCase struct {
-	Kind string `json:"kind"` // script | bridge | probe | isolation
+	Kind string `json:"kind"` // script | bridge | shape | probe | isolation
 	// script
 	Script string `json:"script,omitempty"`
 	Obj    string `json:"obj,omitempty"`
@@ -97,6 +97,8 @@ type replayCase struct {
 	// bridge
 	Value   interface{} `json:"value,omitempty"` // tagged form
 	Variant string      `json:"variant,omitempty"`
+	// shape (table constructor source; Variant = nesting)
+	Shape string `json:"shape,omitempty"`
 	// probe
 	Probe string `json:"probe,omitempty"`
 	// isolation
@@ -728,6 +730,7 @@ func Run(r *lib.Report) {
 
 	// ----- value bridge (in-process: identity scripts cannot hang) -----
 	runBridge(r, st, th)
+	runShapes(r, st, th)
 	lap("bridge")
 	r.Extra["phase_seconds"] = phases
 
@@ -1003,6 +1006,14 @@ func Replay(r *lib.Report, raw json.RawMessage) {
 			if o2.Killed || o2.ElapsedMs > float64(oracleBound.Milliseconds()) {
 				st.add("C16/deadline/"+sigClass(m), 0, fmt.Sprintf("script returned after %.0f ms and %.0f ms (> %v)", o.ElapsedMs, o2.ElapsedMs, oracleBound), rc)
 			}
+		}
+	case "shape":
+		fmt.Printf("replay C16 table-shape case, nesting %s\n", rc.Variant)
+		bv := replayShape(rc.Shape, rc.Variant, say)
+		r.AddEval(1)
+		say("verdict: %s", bv.Class)
+		if bv.Sig != "" {
+			st.add(bv.Sig, 0, bv.Detail, rc)
 		}
 	case "bridge":
 		rawV, _ := json.Marshal(rc.Value)
